@@ -5,7 +5,9 @@ Correspondence (exact): `local_comp_graph`, `Graph.local_complementation`, `_coe
 `_solution_basis_finder`, `is_lc_equivalent` (both modes; the random draws are recorded from `np.random.randint` and handed
 to the model), `local_clifford_ops` (all 16 blocks, every run), `lc_graph_operations`, `find_lc_operations`,
 `converter_gate_list`/`lc_check` on graph and adjacency-matrix inputs are run on the real implementation and on the Lean
-model (`graph.lc`, `lc.system`, `lc.equiv`, `lc.ops`, `lc.seq`, `lc.find`, `lc.check`) and compared.
+model (`graph.lc`, `lc.system`, `lc.equiv`, `lc.ops`, `lc.seq`, `lc.find`, `lc.check`) and compared; `lc_check` on two tableaux
+(StabilizerTableau / CliffordTableau) is compared exactly with `lcCheckStates` (`lc.checkstates`: total gate list or error class), and
+`_is_valid_clifford` with `lc.valid`.
 
 Two versions of `is_lc_equivalent` are modelled: the one in the repository up to 70adac4 (`isLcEquivalent`: one linear system for
 the whole graph; known finding D14) and the repaired one (handoff/repairs/d14: `isLcEquivalentR`: components compared, then the
@@ -30,6 +32,7 @@ Direct oracle (independent of graphiq and, except for the orbit table, of the mo
 import numpy as np
 
 from harness import graphutil as gu
+from harness import stabutil as su
 from harness import tabutil as tu
 from harness.common import Driver, Result, err_class
 
@@ -43,13 +46,18 @@ TRUSTED_BASE = [
     "for the repaired function only: completeness of the pair-sum shortcut on CONNECTED graphs (Van den Nest-Dehaene-De Moor, PRA 70, 034302) is a "
     "stated hypothesis of decides_lc_equivalence_repaired_partial (shortcut_complete_on_connected_statement), not a theorem; it is tested "
     "(every false no of the implementation is a violation of the direct oracle; handoff/repairs/d14/validate.py: exhaustive for connected n<=6)",
-    "np.linalg.inv on the unit-triangular 0/1 matrices that occur is exact (the model inverts over GF(2) and checks the product)",
-    "_phase_correction is modelled at specification level (unique set of Z gates fixing the signs); canonical_form itself belongs to C05",
+    "np.linalg.inv on the unit-triangular 0/1 matrices that occur is exact in floating point (the model inverts over GF(2); that the matrices are "
+    "upper unitriangular, that the exact inverse exists and is two-sided, and that no internal assertion of is_lc_equivalent can fire is proved: "
+    "is_lc_equivalent_component_total, is_lc_equivalent_total)",
+    "_phase_correction is modelled at specification level (the unique set of Z gates fixing the signs; proved: it exists for every valid Q, the model "
+    "finds it, and the total gate list maps |A> onto |B> - gates_with_phase_correction_map_the_state, lc_check_total_and_right); that graphiq's "
+    "computation from two canonical forms gives the same set is compared per input; canonical_form itself belongs to C05",
     "tensor-product lifting of the tableau semantics (C07) used to interpret the returned gates",
     "harness, line protocol, driver BFS orbit enumeration over the verified localComp",
 ]
 ASSUMPTIONS = [
-    "graphs are simple, n >= 1, nodes labelled 0..n-1 in order (as produced by nx.from_numpy_array); n = 0 makes row_reduction loop for ever and is outside the quantifier",
+    "graphs are simple, n >= 1, nodes labelled 0..n-1 in order (as produced by nx.from_numpy_array); n = 0 is outside the quantifier (it makes "
+    "row_reduction of the whole-graph algorithm loop for ever; the repaired is_lc_equivalent has no component to examine and returns (True, empty array))",
     "np.random.randint is the only randomness of mode='random' (recorded and replayed into the model)",
     "floating-point inverse of the pivot-column matrix is exact for the sizes explored (n <= 12)",
 ]
@@ -238,6 +246,45 @@ def check_ops_table(res, drv):
             res.traces_validated += 1
 
 
+def check_valid_clifford(res, drv, rng, count):
+    """`_is_valid_clifford` directly (since the repair of D14 the searches rarely meet a candidate with an all-ones block, so the
+    reduction modulo 2 of the determinant is no longer exercised end to end): all 16 one-block and all 256 two-block vectors, random
+    vectors up to 5 blocks; against the definition (every block invertible over GF(2)) and against the model"""
+    from graphiq.backends.lc_equivalence_check import _is_valid_clifford
+
+    vecs = [[(m >> k) & 1 for k in range(4)] for m in range(16)] + [[(m >> k) & 1 for k in range(8)] for m in range(256)]
+    for _ in range(count):
+        nb = rng.randrange(1, 6)
+        # mostly-valid: start from invertible blocks and spoil at most one
+        inv = [[1, 0, 0, 1], [0, 1, 1, 0], [1, 1, 0, 1], [1, 1, 1, 0], [0, 1, 1, 1], [1, 0, 1, 1]]
+        v = [b for _ in range(nb) for b in rng.choice(inv)]
+        if rng.random() < 0.6:
+            k = rng.randrange(nb)
+            v[4 * k:4 * k + 4] = rng.choice([[1, 1, 1, 1], [0, 0, 0, 0], [1, 1, 0, 0], [1, 0, 1, 0], [0, 0, 1, 1]])
+        vecs.append(v)
+    lines, meta = [], []
+    for v in vecs:
+        nb = len(v) // 4
+        want = all((v[4 * i] * v[4 * i + 3] + v[4 * i + 1] * v[4 * i + 2]) % 2 == 1 for i in range(nb))
+        try:
+            got = bool(_is_valid_clifford(np.array(v).reshape(4 * nb, 1)))
+        except Exception as e:  # noqa: BLE001
+            got = f"err {err_class(e)}"
+        res.evaluations += 1
+        if got is not want:
+            gu.viol(res, "_is_valid_clifford:wrong", "a vector is a valid local Clifford iff every 2x2 block is invertible over GF(2)",
+                    input={"q": "".join(map(str, v))}, impl=str(got), expected=str(want))
+        res.nontrivial("valid", "".join(map(str, v)))
+        lines.append(f"lc.valid q={''.join(map(str, v))}")
+        meta.append((v, got))
+    reps = drv.batch(lines)
+    for rep, (v, got) in zip(reps, meta):
+        if rep["_status"] != "ok" or rep.get("valid") != ("1" if got is True else "0" if got is False else "?"):
+            res.exact_break("lc.valid", input={"q": "".join(map(str, v))}, impl=str(got), model=rep["_raw"][:100])
+        else:
+            res.traces_validated += 1
+
+
 # ---------------------------------------------------------------------------------------------------- one pair, everything
 def components_ref(A):
     """connected components by definition (label propagation to a fixed point), independent of graphiq and of the model"""
@@ -279,13 +326,14 @@ def system_lines(A, B):
     return out
 
 
-def check_pair(res, drv, orb, A, B, modes=("deterministic",), seed=0, deep=True, label="pair", want_system=False):
+def check_pair(res, drv, orb, A, B, modes=("deterministic",), seed=0, deep=True, label="pair", want_system=False, known_same=None):
     from graphiq.backends import lc_equivalence_check as lce
     from graphiq.backends.stabilizer.functions.local_cliff_equi_check import lc_check
 
     n = len(A)
     inp = {"a": gu.adj_args(A), "b": gu.adj_args(B, "b", with_n=False)}
-    same = orb.same_orbit(A, B) if n <= 7 else None
+    # ground truth: the orbit table (n <= 7); beyond, only what the caller knows by construction (B made from A by local complementations)
+    same = orb.same_orbit(A, B) if n <= 7 else known_same
     lines, meta = [], []
     for mode in modes:
         st, yes, Q, draws = impl_equiv(A, B, mode, seed)
@@ -516,14 +564,38 @@ def check_tableau_pair(res, drv, t1, t2, same, inp, target=None):
     a returned gate list, run by the verified tableau model on state 1, gives exactly state 2.  A false `no` is classified by the
     dimension of the solution space on the two graphs `state_to_graph` chose (>= 5: the known finding D14)."""
     from graphiq.backends.stabilizer.functions.local_cliff_equi_check import lc_check
+    from graphiq.backends.stabilizer.clifford_tableau import CliffordTableau as _CT
 
+    # exact correspondence with the model of the tableau path (`lcCheckStates`: state_to_graph on both states, converter_gate_list on the
+    # graphs, gates1 + gate_list + reversed(gates2 with P <-> P_dag), validation) — repaired is_lc_equivalent, both inputs tableaux
+    model_line = None
+    if repaired():
+        s1 = t1.to_stabilizer() if isinstance(t1, _CT) else t1
+        if target is None:
+            s2 = t2.to_stabilizer() if isinstance(t2, _CT) else t2
+            model_line = f"lc.checkstates {su.stab_args(s1, 'a')} {su.stab_args(s2, 'b')} validate=1"
+        else:
+            # second argument a graph: `lcCheckStateGraph`
+            B2 = gu.to_adj(t2)
+            model_line = f"lc.checkstategraph {su.stab_args(s1, 'a')} n={len(B2)} b={gu.bits(B2)} validate=1"
     try:
         ok, gates = lc_check(t1, t2, validate=True)
     except Exception as e:  # noqa: BLE001
         err = err_class(e)
         res.count("errors", f"tab:{err}")
         gu.viol(res, f"lc_check:tableau:raises:{err}", f"lc_check raised on two stabilizer states: {str(e)[:80]}", input=inp)
+        if model_line is not None:
+            rep = drv.ask(model_line)
+            if rep["_status"] != "err" or rep.get("_err") != err:
+                res.exact_break("lc.checkstates:error-class", input=inp, impl=f"err {err}", model=rep["_raw"][:200])
         return "raises"
+    if model_line is not None:
+        rep = drv.ask(model_line)
+        want = f"ok yes={int(bool(ok))} gates={gu.gates_str([(g[0], int(g[1])) for g in gates])}"
+        if rep["_raw"] != want:
+            res.exact_break("lc.checkstates", input=inp, impl=want[:300], model=rep["_raw"][:300])
+        else:
+            res.traces_validated += 1
     if ok and not same:
         gu.viol(res, "lc_check:tableau:false-yes", "lc_check answered yes for states whose graphs lie in different LC orbits", input=inp)
         return "false-yes"
@@ -690,13 +762,77 @@ def random_pairs(res, drv, orb, rng, count, nmin, nmax, modes, deep=True):
         n = rng.randrange(nmin, nmax + 1)
         A = gu.structured_graph(rng, n)
         w = rng.random()
+        known = None
         if w < 0.6:
             B, _ = gu.random_lc_walk(rng, A, rng.randrange(0, 3 * n))
+            known = True
         elif w < 0.8:
             B = gu.permute(A, gu.random_perm(rng, n))
         else:
             B = gu.structured_graph(rng, n)
-        check_pair(res, drv, orb, A, B, modes=modes, seed=rng.randrange(100), deep=deep, label=f"random n={n}", want_system=rng.random() < 0.3)
+        check_pair(res, drv, orb, A, B, modes=modes, seed=rng.randrange(100), deep=deep, label=f"random n={n}", want_system=rng.random() < 0.3,
+                   known_same=known)
+
+
+def connected_large_space(rng, n):
+    """a connected graph whose linear system tends to have a large solution space (many twins / pendant vertices): random tree,
+    distance-hereditary graph (pendant / twin extensions), complete multipartite graph, caterpillar, tree plus a chord; relabelled"""
+    A = np.zeros((n, n), dtype=int)
+    k = rng.randrange(5)
+    if k == 0:
+        for i in range(1, n):
+            j = rng.randrange(i)
+            A[i, j] = A[j, i] = 1
+    elif k == 1:
+        A[0, 1] = A[1, 0] = 1
+        for i in range(2, n):
+            j, kind = rng.randrange(i), rng.randrange(3)
+            if kind == 0:
+                A[i, j] = A[j, i] = 1
+            else:
+                A[i, :i] = A[j, :i]
+                A[:i, i] = A[:i, j]
+                if kind == 1:
+                    A[i, j] = A[j, i] = 1
+    elif k == 2:
+        parts, r = [], n
+        while r > 0:
+            p = rng.randrange(1, r + 1)
+            parts.append(p)
+            r -= p
+        if len(parts) == 1:
+            parts = [1, n - 1]
+        A[:] = 1
+        s = 0
+        for p in parts:
+            A[s:s + p, s:s + p] = 0
+            s += p
+    elif k == 3:
+        spine = rng.randrange(1, max(2, n // 3) + 1)
+        for i in range(1, spine):
+            A[i - 1, i] = A[i, i - 1] = 1
+        for v in range(spine, n):
+            u = rng.randrange(spine)
+            A[u, v] = A[v, u] = 1
+    else:
+        for i in range(1, n):
+            j = rng.randrange(i)
+            A[i, j] = A[j, i] = 1
+        i, j = rng.sample(range(n), 2)
+        A[i, j] = A[j, i] = 1
+    return gu.permute(A, gu.random_perm(rng, n))
+
+
+def shortcut_on_connected(res, drv, orb, rng, count, nmax):
+    """The one hypothesis of the decision theorem for the repaired function (`shortcut_complete_on_connected_statement`): on a
+    CONNECTED graph a `no` of the pair-sum search is right.  Tested on every run: connected graphs with large solution spaces,
+    second graph made by random local complementations (so `yes` is the only right answer, for every n); a `no` is a violation."""
+    for _ in range(count):
+        n = rng.randrange(5, nmax + 1)
+        A = connected_large_space(rng, n)
+        B, _ = gu.random_lc_walk(rng, A, rng.randrange(0, 3 * n))
+        check_pair(res, drv, orb, A, B, modes=("deterministic",), deep=False, label=f"connected n={n}", known_same=True)
+        res.branch(["shortcut-hypothesis:connected-pair"])
 
 
 def check_iso_equal(res, drv, orb, rng, count):
@@ -766,6 +902,7 @@ def run(ctx):
     orb = gu.OrbitOracle(drv)
     rng = ctx.rng
     check_ops_table(res, drv)
+    check_valid_clifford(res, drv, rng, 100 if ctx.quick else 2000)
     d14_witnesses(res, drv, orb)
     former_d40_inputs(res, drv)
     malformed(res, drv, rng)
@@ -783,6 +920,7 @@ def run(ctx):
     # random mode and larger graphs
     random_pairs(res, drv, orb, rng, 150 if ctx.quick else 1500, 2, 6, ("deterministic", "random"))
     random_pairs(res, drv, orb, rng, 12 if ctx.quick else 150, 7, 9 if ctx.quick else 12, ("deterministic", "random"))
+    shortcut_on_connected(res, drv, orb, rng, 60 if ctx.quick else 1500, 10 if ctx.quick else 14)
     check_tableau_inputs(res, drv, orb, rng, 150 if ctx.quick else 1500, 5 if ctx.quick else 6)
     check_iso_equal(res, drv, orb, rng, 60 if ctx.quick else 600)
     if not ctx.quick:
@@ -819,6 +957,15 @@ def replay(ctx, data):
             n = int(kv["n"])
             A = gu.adj_from_bits(kv["a"], n)
             check_local_comp(res, drv, [A], "replay")
+        elif "q" in inp and "a" not in inp and "adj" not in inp:
+            from graphiq.backends.lc_equivalence_check import _is_valid_clifford
+
+            v = [int(c) for c in inp["q"]]
+            nb = len(v) // 4
+            want = all((v[4 * i] * v[4 * i + 3] + v[4 * i + 1] * v[4 * i + 2]) % 2 == 1 for i in range(nb))
+            got = bool(_is_valid_clifford(np.array(v).reshape(4 * nb, 1)))
+            print("replay _is_valid_clifford:", inp["q"], "->", got, "expected", want)
+            return got is want
         elif "a" in inp and "kinds" not in inp:
             kv = dict(t.split("=", 1) for t in (inp["a"] + " " + inp["b"]).split())
             n = int(kv["n"])
